@@ -13,7 +13,7 @@ along for `check_for_const`.
 
 * `params_sufficient2_partial` — two environments (with bindings, of the same mode) that agree — type-name
   table and parameter binding — on every name of `params e` give `evalSpec B e` the same value;
-* `exec_agree_on_params2` — the same about executions of the compiled program
+* `exec_agree_on_params2_partial` — the same about executions of the compiled program
   (`exec_correct2_partial`: standard environments, nesting depth within the budget);
 * `unreported_irrelevant2`, `exec_unreported_irrelevant2` — a name that is not reported is irrelevant;
 * `params_no_binding_error2_partial`, `exec_params_no_binding_error2`, `binding_failure_needs_unbound_name2` —
@@ -65,7 +65,7 @@ theorem params_sufficient2_partial (hB : BuiltinsOK B) {e : Ast} (h : Frag2 B e)
 /-- **Executions of the compiled program** under two bindings that agree on all reported names give the
     same result (value or failure, and log): expressions with calls, macros, map literals, f-strings, index
     and field access, type patterns. -/
-theorem exec_agree_on_params2 (hB : BuiltinsOK B) {env₁ env₂ : Env} (h1 : StdEnv B env₁) (h2 : StdEnv B env₂)
+theorem exec_agree_on_params2_partial (hB : BuiltinsOK B) {env₁ env₂ : Env} (h1 : StdEnv B env₁) (h2 : StdEnv B env₂)
     (hm : env₁.compileMode = env₂.compileMode) {e : Ast} (h : Frag2 B e) (hd : depth e < maxDepth)
     (hag : C17Sem.AgreeOn (params e) env₁ env₂) :
     execProg B env₁ (compileProgram B e) = execProg B env₂ (compileProgram B e) := by
@@ -89,7 +89,7 @@ theorem exec_unreported_irrelevant2 (hB : BuiltinsOK B) {env : Env} (henv : StdE
     (h : Frag2 B e) (hd : depth e < maxDepth) {x : Str} (hx : x ∉ params e) (hcx : callableName B x = false)
     {v : Val} (hv : Data v) :
     execProg B (env.bind x v) (compileProgram B e) = execProg B env (compileProgram B e) :=
-  exec_agree_on_params2 hB (henv.bind hcx hv) henv rfl h hd
+  exec_agree_on_params2_partial hB (henv.bind hcx hv) henv rfl h hd
     (fun n hn => differ_bind env x v n (fun hnx => hx (hnx ▸ hn)))
 
 /-! ## binding every reported name is sufficient -/
@@ -240,11 +240,11 @@ theorem agreePQ : C17Sem.AgreeOn (params ex2) envP envQ := by
   simp only [List.mem_cons, List.mem_nil_iff, or_false] at hn
   rcases hn with rfl | rfl | rfl <;> exact ⟨rfl, rfl⟩
 
--- params_sufficient2_partial / exec_agree_on_params2: envP and envQ differ in order and in `z`
+-- params_sufficient2_partial / exec_agree_on_params2_partial: envP and envQ differ in order and in `z`
 example : evalSpec demoB ex2 envP = evalSpec demoB ex2 envQ :=
   params_sufficient2_partial demoB_ok ex2_frag rfl rfl rfl agreePQ
 example : execProg demoB envP (compileProgram demoB ex2) = execProg demoB envQ (compileProgram demoB ex2) :=
-  exec_agree_on_params2 demoB_ok stdP stdQ rfl ex2_frag (by decide) agreePQ
+  exec_agree_on_params2_partial demoB_ok stdP stdQ rfl ex2_frag (by decide) agreePQ
 -- … and the common value is `2u + 3u = 5u`, so the statement is not about two failures only
 example : evalSpec demoB ex2 envP = .uint 5 := by rfl
 -- unreported_irrelevant2 / exec_unreported_irrelevant2: `z` is not reported
